@@ -316,6 +316,7 @@ impl QueryParser {
     }
 
     pub fn parse(p: &str, data_model: &DataModel) -> Result<Self, Error> {
+        super::check_nesting_depth(p)?;
         let mut query = QueryParser::new();
 
         let parse = match PestParser::parse(Rule::query, p) {
